@@ -156,7 +156,7 @@ def build(case):
 class C07(Property):
     id = "C07"
     title = "flatten() is compositional and names every leaf by its position"
-    proof_module = "Proofs.C07NodupExamples"
+    proof_module = "Proofs.C07Overlap"
     level_text = "Lean 4 theorems on the flatten model: `flatten_compositional` (multiset equality with the members' own outputs at every node), `flatten_level_order`, `joined_opaque`, `keys_are_paths` (key = separator-join of names, list members by position), `keys_unique_paths` (equal keys imply equal name paths under SepSafe), `keys_nodup_noArray` / `keys_nodup_firstOnly` + `keys_firstOnly_iff` (for every conforming state of a wf schema without SparseDict the keys are pairwise distinct once every Array/MultiValue is cut to its first member, and the cut loses no key: the only repeated keys are those of the 2nd, 3rd, ... member of an Array/MultiValue). Tied to /repo by correspondence on element states after random list-mutation histories (incl. extended slices); oracle recomputes keys from positions."
     level_note = 'Trusted: Lean kernel + 3 standard axioms; model Flatland/Flat.lean (flatten part); element state and leaf texts are extracted from the real element; that only Array/MultiValue members share a name path is checked by the oracle, not proved.'
     technique = 'Lean 4 proof (queue BFS = level order, permutation with per-child outputs); differential correspondence; Python oracle'
@@ -176,12 +176,14 @@ class C07(Property):
         "Flatland.Flat.Proofs.paths_firstOnly_iff",
         "Flatland.Flat.Proofs.keys_nodup_firstOnly",
         "Flatland.Flat.Proofs.keys_firstOnly_iff",
+        "Flatland.Flat.Proofs.keys_nodup_needs_sepSafe",     # KF-C07-a: the hypothesis SepSafe is needed
+        "Flatland.Flat.Proofs.ov_not_sepSafe",
     ]
     trusted_base = [
         "scalar text (.u) and compound text are inputs of the flat model (env tables computed from the real classes in isolation; subjects of C04/C18)",
         "element state is extracted from the real element after set() and list mutations; flatten is recomputed by the model",
     ]
-    assumptions = ["names and separators satisfy SepSafe for the uniqueness clause; Array members are scalars (library assertion)"]
+    assumptions = ["the uniqueness THEOREMS need SepSafe names and separators (keys_nodup_needs_sepSafe: refuted without it, KF-C07-a); the oracle checks uniqueness for every separator; Array members are scalars (library assertion)"]
     rule = ("random schemas (Dict/SparseDict/List/Array/MultiValue/JoinedString/DateYYYYMMDD/scalars, depth<=4, hostile names and "
             "separators) x mostly-valid native values x 0-4 list mutations (insert/append/pop/del/slices/reverse/sort); non-trivial = "
             ">=3 pairs emitted and at least one container below the root; distinct = canonical case JSON")
